@@ -717,11 +717,115 @@ fn codec_oracle(cfg: &Cfg, frame: &[u8]) -> Option<String> {
     if frame.len() < 9 + len {
         return None;
     }
+    // g= : did the claimed-size guard of frame::decompress refuse (Model/FrameGuard.v `guard`)?
+    //      1 = "claims an impossible uncompressed size", 2 = LZ4 body shorter than its prefix, 0 = guard passed
     Some(match scylla_cql::frame::decompress(&frame[9..9 + len], comp) {
-        Ok(v) => format!("dc={}", hex_bytes(&v)),
-        Err(_) => "dc=!".to_string(),
+        Ok(v) => format!("g=0 dc={}", hex_bytes(&v)),
+        Err(e) => {
+            let m = format!("{:?}", e);
+            let g = if m.contains("impossible uncompressed size") { 1 } else if m.contains("shorter than its 4-byte size prefix") { 2 } else { 0 };
+            format!("g={} dc=!", g)
+        }
     })
 }
+
+// ------------------------------------------------------------------ kind Z: large, highly compressible well-formed bodies
+/// hash of a byte string, the same in ocaml/c08/driver.ml (`zhash`): h = (h * 1000003 + b) mod 2^62
+fn zhash(b: &[u8]) -> u64 {
+    let mut h: u64 = 7;
+    for &x in b {
+        h = (h.wrapping_mul(1000003).wrapping_add(x as u64)) & ((1u64 << 62) - 1);
+    }
+    h
+}
+/// a long status is cut to its first 1500 characters + hash and length of the whole (same in the driver)
+fn zshort(s: &str) -> String {
+    if s.len() <= 4096 { s.to_string() } else { format!("{}#{:x}:{}", &s[..1500], zhash(s.as_bytes()), s.len()) }
+}
+/// The uncompressed frame of a Z case, `<fill>.<period>.<len>.<shape>` (hex fill, decimal period and length):
+/// byte i of the payload is fill + (i mod period) (7 bits for the string shapes).  The driver builds the same
+/// frame with the EXTRACTED encoder from the same spec and compares hash and length (`bh=`, `bl=`).
+fn z_frame(spec: &str) -> Option<Vec<u8>> {
+    let p: Vec<&str> = spec.split('.').collect();
+    if p.len() != 4 {
+        return None;
+    }
+    let fill = u8::from_str_radix(p[0], 16).ok()? as usize;
+    let period: usize = p[1].parse().ok()?;
+    let len: usize = p[2].parse().ok()?;
+    if period == 0 || len == 0 || len > (64 << 20) {
+        return None;
+    }
+    let pat = |n: usize, mask: u8| -> Vec<u8> { (0..n).map(|i| ((fill + i % period) as u8) & mask).collect() };
+    let st = |b: &mut Vec<u8>, s: &[u8]| {
+        b.extend_from_slice(&(s.len() as u16).to_be_bytes());
+        b.extend_from_slice(s);
+    };
+    let rows_head = |ty: u16, rows: u32| -> Vec<u8> {
+        let mut b = vec![];
+        b.extend_from_slice(&2i32.to_be_bytes());
+        b.extend_from_slice(&0i32.to_be_bytes());
+        b.extend_from_slice(&1i32.to_be_bytes());
+        st(&mut b, b"ks");
+        st(&mut b, b"t");
+        st(&mut b, b"c");
+        b.extend_from_slice(&ty.to_be_bytes());
+        b.extend_from_slice(&rows.to_be_bytes());
+        b
+    };
+    Some(match p[3] {
+        "blob" | "text" => {
+            let (ty, mask) = if p[3] == "blob" { (0x0003, 0xff) } else { (0x000D, 0x7f) };
+            let mut b = rows_head(ty, 1);
+            b.extend_from_slice(&(len as u32).to_be_bytes());
+            b.extend_from_slice(&pat(len, mask));
+            frame(0, 8, &b)
+        }
+        "rows" => {
+            let n = (len / 8).max(1);
+            let mut b = rows_head(0x0009, n as u32);
+            for _ in 0..n {
+                b.extend_from_slice(&4u32.to_be_bytes());
+                b.extend_from_slice(&[fill as u8; 4]);
+            }
+            frame(0, 8, &b)
+        }
+        "error" => {
+            let mut b = vec![];
+            b.extend_from_slice(&0i32.to_be_bytes());
+            st(&mut b, &pat(len.min(65535), 0x7f));
+            frame(0, 0, &b)
+        }
+        "supported" => {
+            let slen = len.min(1024);
+            let count = (len / 1024).clamp(1, 65535);
+            let mut b = vec![];
+            b.extend_from_slice(&1u16.to_be_bytes());
+            st(&mut b, b"K");
+            b.extend_from_slice(&(count as u16).to_be_bytes());
+            let s = pat(slen, 0x7f);
+            for _ in 0..count {
+                st(&mut b, &s);
+            }
+            frame(0, 6, &b)
+        }
+        _ => return None,
+    })
+}
+/// the frame with its body compressed by the REAL encoder (frame::compress_append: snap / lz4_flex)
+fn z_compressed(plain: &[u8], comp: Compression) -> Option<Vec<u8>> {
+    let mut g = plain[..9].to_vec();
+    g[1] |= 1;
+    scylla_cql::frame::compress_append(&plain[9..], comp, &mut g).ok()?;
+    let l = (g.len() - 9) as u32;
+    g[5..9].copy_from_slice(&l.to_be_bytes());
+    Some(g)
+}
+
+/// Z bodies up to this size are also rebuilt and decoded by the extracted model in the driver (`cf=`);
+/// above it the driver judges by `zeq=` (real decompress of the real encoder's output = the encoded body)
+const Z_MODEL_MAX: usize = 140_000;
+const Z_LENGTHS: [usize; 12] = [1024, 4096, 16384, 65535, 65536, 65537, 131072, 262144, 1 << 20, (1 << 20) + 1, 2 << 20, 4 << 20];
 
 fn run_case(case: &str) -> String {
     let f: Vec<&str> = case.split_whitespace().collect();
@@ -765,8 +869,24 @@ fn run_case(case: &str) -> String {
         _ => {}
     }
     let cfg = parse_cfg(f[1], f[2]);
-    let frame = unhex(f[3]);
-    let oracle = codec_oracle(&cfg, &frame);
+    let zkind = f[0] == "Z";
+    let mut zinfo = String::new();
+    let frame = if zkind {
+        let (Some(plain), Some(comp)) = (z_frame(f[3]), cfg.compression) else { return "error bad-z-case m=0 t=0".into() };
+        let Some(g) = z_compressed(&plain, comp) else { return "error z-compress-failed m=0 t=0".into() };
+        // what the real decoder makes of the real encoder's output, compared with the body that was encoded
+        let (zeq, gd) = match scylla_cql::frame::decompress(&g[9..], comp) {
+            Ok(v) => ((v == plain[9..]) as u8, 0),
+            Err(e) => (0, if format!("{:?}", e).contains("impossible uncompressed size") { 1 } else { 0 }),
+        };
+        // r= achieved compression ratio x 100 (plain body / compressed body)
+        zinfo = format!("g={} zeq={} bh={:x} bl={} cl={} r={} cf={}", gd, zeq, zhash(&plain), plain.len(), g.len(),
+            (plain.len() - 9) * 100 / (g.len() - 9).max(1), if plain.len() <= Z_MODEL_MAX { hex_bytes(&g) } else { "-".to_string() });
+        g
+    } else {
+        unhex(f[3])
+    };
+    let oracle = if zkind { Some(zinfo) } else { codec_oracle(&cfg, &frame) };
     MAXREQ.with(|m| m.set(0));
     TOTAL.with(|t| t.set(0));
     let pair = f[0] == "P";
@@ -780,6 +900,7 @@ fn run_case(case: &str) -> String {
         }
     };
     let (m, t) = (MAXREQ.with(|m| m.get()), TOTAL.with(|t| t.get()));
+    let status = if zkind { zshort(&status) } else { status };
     match oracle {
         Some(o) => format!("{} {} m={} t={}", o, status, m, t),
         None => format!("{} m={} t={}", status, m, t),
@@ -1744,6 +1865,53 @@ fn gen_cases(a: &Args) -> Vec<String> {
         }
         let ft = if r.bool() { FT0.to_string() } else { "rl:4321,mid:1".to_string() };
         cases.push(format!("R {} {}n {}", ft, if r.bool() { 1 } else { 2 }, hex_bytes(&f)));
+    }
+    // kind Z (wave-4 follow-up): WELL-FORMED frames with large, highly compressible bodies behind the real
+    // Snappy / LZ4 encoders; fixed list (no seed): fills x lengths x shapes x codecs
+    for (fill, period) in [(0u8, 1usize), (0x61, 1), (0xff, 1), (0x41, 2), (0x30, 7)] {
+        for len in Z_LENGTHS {
+            for shape in ["blob", "rows", "text", "error", "supported"] {
+                if (shape == "error" && len > 65537) || (len > (1 << 20) && (period != 1 || shape == "text")) {
+                    continue;
+                }
+                for c in ['s', 'l'] {
+                    cases.push(format!("Z {} {}{} {:02x}.{}.{}.{}", FT0, if len % 2 == 0 { 2 } else { 1 }, c, fill, period, len, shape));
+                }
+            }
+        }
+    }
+    // G: the same bodies (small ones) with the codec's length prefix corrupted to just below / above the
+    // guard's threshold (claimed = R x available - 1, R x available + R ..): the guard model decides
+    for (fill, len) in [(0u8, 1024usize), (0x61, 65536), (0, 65537), (0x41, 20000)] {
+        for shape in ["blob", "rows", "supported"] {
+            let Some(plain) = z_frame(&format!("{:02x}.1.{}.{}", fill, len, shape)) else { continue };
+            for (c, comp) in [('s', Compression::Snappy), ('l', Compression::Lz4)] {
+                let Some(g) = z_compressed(&plain, comp) else { continue };
+                let avail = if c == 'l' { g.len() - 13 } else { g.len() - 9 };
+                let rr = if c == 'l' { 255 } else { 32 };
+                for claim in [rr * avail - 1, rr * avail, rr * avail + rr - 1, rr * avail + rr, 21 * avail, 22 * avail, 2 * rr * avail, u32::MAX as usize, 0] {
+                    let mut m = g[..9].to_vec();
+                    if c == 'l' {
+                        m.extend_from_slice(&(claim as u32).to_be_bytes());
+                        m.extend_from_slice(&g[13..]);
+                    } else {
+                        // replace snap's varint preamble by the varint of the claim
+                        let mut k = 9;
+                        while g[k] & 0x80 != 0 { k += 1; }
+                        let mut v = claim as u64;
+                        loop {
+                            let b = (v & 0x7f) as u8;
+                            v >>= 7;
+                            if v == 0 { m.push(b); break; } else { m.push(b | 0x80); }
+                        }
+                        m.extend_from_slice(&g[k + 1..]);
+                    }
+                    let l = (m.len() - 9) as u32;
+                    m[5..9].copy_from_slice(&l.to_be_bytes());
+                    cases.push(format!("G {} 2{} {}", FT0, c, hex_bytes(&m)));
+                }
+            }
+        }
     }
     // compression for the other kinds: the (mutated / cut / field-damaged / inflated-count) body behind a
     // VALID compression layer, so that the damage reaches the body decoders instead of the codec.  Every V
